@@ -75,6 +75,14 @@ CLAIMS = {
         text="Grid.tla defines ceil(M/dt)+1, (T-1-i)dt modulo T and floor(start/dt) over rationals and TLC checks the grid invariants for M=(k+f)dt, k=1..60 (thorough ..260 and large), "
              "10 step sizes, 5 fractions; the harness passes the floats a user would type to the real instruments and compares buffer shapes, time_to_maturity(i|None), hedge and payoff shapes.",
         note="Trusted: TLC, torch. time to maturity within 4*eps*(T-1)*dt, exact zero at the end; BrownianStock on all cases, the other 7 primaries on every 11th."),
+    "C15": dict(
+        engine="Fit.tla + FitTrace.tla / TLC -> trace validation + reference loop",
+        technique="TLA+ protocol automaton of fit() model-checked for every configuration; real fit() runs with recording doubles validated event by event by TLC (FitTrace.tla); final parameters/history compared with an explicit reference loop",
+        category=MC, design_ref="DESIGN.md 3 C15",
+        text="TLC checks StepsEqualEpochs, ExactlyKSteps, NoAccumulation, ParamsChangeOnlyInStep, mode/grad invariants, HistoryLength, SimulationCount and termination over all 384 configurations; "
+             "the real fit() is run for every configuration with a recording optimiser/model/primary and FitTrace.tla accepts the trace only if every event with its arguments, flags and observed "
+             "parameter version is explained; parameters and history must equal, bitwise, an explicit simulate/loss/backward/step loop on the same draws (scripted) and under the same seed (real primaries, Adam, MLP).",
+        note="Trusted: TLC, torch, the doubles (public extension points only). Backward is inferred (no observable event). Parametrised criteria are not trained by the constructed optimiser: modelled as the code behaves."),
     "C16": dict(
         engine="Session.tla + SessionTrace.tla / TLC -> replay + trace validation",
         technique="TLA+ session machine with buffer versions and a result memo; TLC interleavings replayed on real objects with content hashes and fresh-hedger comparison; recorded sessions validated by TLC (SessionTrace.tla)",
